@@ -360,7 +360,7 @@ pub fn run(tier: Tier, replay: Option<String>) -> i32 {
     c.assume("signed enum bases are injected as signed numbers; the reported number is compared as a wide integer");
     let only = std::env::var("VERIF_ONLY").ok();
     let labels: Vec<String> = corpus.entries.iter().map(|e| e.label()).filter(|l| only.as_ref().map(|o| l.contains(o.as_str())).unwrap_or(true)).filter(|l| !corpus.skip_entry.contains(l)).collect();
-    let sup = crate::iso::supervise("C04", tier.as_str(), labels, 16, 24, std::time::Duration::from_secs(tier.pick(180, 1800)), vec![]);
+    let sup = crate::iso::supervise("C04", tier.as_str(), labels, 16, 24, std::time::Duration::from_secs(tier.pick(180, 1800)), vec![("VERIF_WORKER_BUDGET_MIB".into(), "12288".into())]);
     let reports: Vec<EntryReport> = sup.reports.iter().map(EntryReport::from_json).collect();
     report_deaths(&mut c, "c04", &sup.deaths);
     c.extra.insert("entries".into(), json!(corpus.entries.len()));
